@@ -31,7 +31,7 @@ func init() {
 	})
 }
 
-var c11Words = []string{"terminal", "exclusive", "batch", "version", "reload", "private", "ip", "route", "interface", "running-config"}
+var c11Words = []string{"terminal", "exclusive", "batch", "version", "reload", "private", "ip", "route", "interface", "running-config", "run", "t", "int", "counters"}
 var c11Cmds = []string{"show", "configure", "reload", "write", "clear", "|"}
 
 type patForm struct {
@@ -58,6 +58,14 @@ var c11PatForms = []patForm{
 	{"(?m)^x", func(r *gen.R) string { return "(?m)^" + w(r) }},
 	{"class", func(r *gen.R) string { return w(r) + " [a-z0-9./]+" }},
 	{"two-words", func(r *gen.R) string { return w(r) + " " + w(r) }},
+	{"prefix-alt", func(r *gen.R) string { // one branch is a proper prefix of the other, shorter first
+		pairs := [][2]string{{"run", "running-config"}, {"t", "terminal"}, {"int", "interface"}, {"ip", "ip route"}, {"counters", "counters all"}}
+		p := pairs[r.Intn(len(pairs))]
+		return p[0] + "|" + p[1]
+	}},
+	{"nongreedy", func(r *gen.R) string { return w(r) + ".*?" }},
+	{"nongreedy-mid", func(r *gen.R) string { return w(r) + " .+? " + w(r) }},
+	{"optional-suffix", func(r *gen.R) string { return w(r) + "( all)??" }},
 	{"invalid(", func(r *gen.R) string { return "(" + w(r) }},
 	{"invalid)(", func(r *gen.R) string { return w(r) + ")|(" + w(r) }},
 	{"invalid[", func(r *gen.R) string { return "[" + w(r) }},
@@ -337,7 +345,15 @@ func c11CmdArgs(r *gen.R, cu *c11User) (string, []string, string) {
 		}
 		branches := strings.Split(lit, "|")
 		br := strings.TrimSpace(branches[r.Intn(len(branches))])
-		switch r.Intn(8) {
+		switch r.Intn(10) {
+		case 8:
+			base, shape = br+" all", "branch+all"
+		case 9:
+			longer := map[string]string{"run": "running-config", "t": "terminal", "int": "interface", "ip": "ip route", "counters": "counters all"}
+			if l, ok := longer[br]; ok {
+				br = l
+			}
+			base, shape = br, "longer-alternative"
 		case 0:
 			base, shape = br, "exact-branch"
 		case 1:
@@ -446,6 +462,10 @@ func runC11(b *mon.B) {
 				}
 				if r.Chance(1, 3) {
 					args = append(args, r.PickS("shell:roles*x", "priv-lvl=1", "foo=bar"))
+				}
+				if r.Chance(1, 4) {
+					// a client-supplied scope attribute must not replace the connection's scope
+					args = append(args, "scope"+r.PickS("=", "*")+r.PickS("elsewhere", "lab", "prod"))
 				}
 				p := r.Perm(len(args))
 				sh2 := make([]string, len(args))
